@@ -200,7 +200,10 @@ pub fn strategy(_t: Tier) -> BoxedStrategy<Case> {
                 1 => Some(d),
                 _ => Some(-d),
             };
-            let sigma_target = if psk8 { 0.03 + 0.03 * sfrac } else { 0.10 + 0.08 * sfrac };
+            // noise levels at which a hard decision of a recorded LLR differs from the transmitted bit with
+            // probability < 1e-14 per sample (BPSK: Q(1/0.13) = 7e-15; 8PSK: 2 Q(sin(pi/8)/0.048) = 2e-15),
+            // so that even the thorough tier (2.5e8 samples) cannot plausibly see a channel error
+            let sigma_target = if psk8 { 0.025 + 0.023 * sfrac } else { 0.08 + 0.05 * sfrac };
             Case { h: systematic_h(r, n, &h0, &tail, staircase, &fix), pattern, interleaver, psk8, sigma_target: Fx(sigma_target), via_builder }
         })
         .prop_flat_map(|c| (shuffled(Just(c.h.clone())), Just(c)))
@@ -431,7 +434,7 @@ pub fn property() -> Property {
         id: "C12",
         subs: vec![Box::new(Sub {
             name: "llr-frames",
-            rule: "configurations: systematic H by construction ([H0 | staircase] or [H0 | unit lower triangular], 2 <= r <= 12, n = p x bs with pattern length p in 1..=12 and bs a multiple of 3), puncturing pattern none / AR4JA-like 1,1,1,1,0 / random with >= 1 true (may puncture information blocks), interleaver none or +-c with c a divisor of the transmitted length, BPSK or 8PSK, Eb/N0 chosen for an expected sigma of 0.10-0.18 (BPSK) or 0.03-0.06 (8PSK), through BerTest::new or BerTestBuilder; a probe DecoderFactory records every LLR vector and answers Err with one systematic bit flipped. Oracles per frame: length n; punctured positions bit-exactly +0.0, all others finite and non-zero; signs equal the own systematic re-encoding of the first k sign bits (or, when information blocks are punctured, extend to a codeword by an own GF(2) solve); reported k, N_cw, N, rate. no two recorded frames bit-identical (independence across frames and workers). Noise: received samples recovered from the LLRs (BPSK exactly, 8PSK by Gauss-Newton inversion of the own exact LLR function) with the expected sigma computed from (k, N after puncturing, bits per symbol, Eb/N0); mean, variance (Wilson-Hilferty), <w,s> scale statistic, lag-1 and re/im correlation within +-7 sigma once >= 5000 samples were collected. Non-trivial = puncturing and interleaving both present, or 8PSK with either; inner = frames examined",
+            rule: "configurations: systematic H by construction ([H0 | staircase] or [H0 | unit lower triangular], 2 <= r <= 12, n = p x bs with pattern length p in 1..=12 and bs a multiple of 3), puncturing pattern none / AR4JA-like 1,1,1,1,0 / random with >= 1 true (may puncture information blocks), interleaver none or +-c with c a divisor of the transmitted length, BPSK or 8PSK, Eb/N0 chosen for an expected sigma of 0.08-0.13 (BPSK) or 0.025-0.048 (8PSK), through BerTest::new or BerTestBuilder; a probe DecoderFactory records every LLR vector and answers Err with one systematic bit flipped. Oracles per frame: length n; punctured positions bit-exactly +0.0, all others finite and non-zero; signs equal the own systematic re-encoding of the first k sign bits (or, when information blocks are punctured, extend to a codeword by an own GF(2) solve); reported k, N_cw, N, rate. no two recorded frames bit-identical (independence across frames and workers). Noise: received samples recovered from the LLRs (BPSK exactly, 8PSK by Gauss-Newton inversion of the own exact LLR function) with the expected sigma computed from (k, N after puncturing, bits per symbol, Eb/N0); mean, variance (Wilson-Hilferty), <w,s> scale statistic, lag-1 and re/im correlation within +-7 sigma once >= 5000 samples were collected. Non-trivial = puncturing and interleaving both present, or 8PSK with either; inner = frames examined",
             cases: |t| t.pick(500, 20_000),
             strategy,
             check,
@@ -439,7 +442,7 @@ pub fn property() -> Property {
         })],
         assumptions: vec![
             "the BER engine draws messages and noise from rand::rng() (not seedable without a hook): structural verdicts do not depend on the draw; the statistical ones use +-7 sigma acceptance regions (per-test false-alarm probability < 3e-12 under the Gaussian approximation)".into(),
-            "hard decisions of the recorded LLRs equal the transmitted bits (error probability < 1e-11 per bit at the generated noise levels)".into(),
+            "hard decisions of the recorded LLRs equal the transmitted bits (error probability < 1e-14 per sample at the generated noise levels: BPSK sigma <= 0.13, 8PSK sigma <= 0.048)".into(),
         ],
     }
 }
